@@ -45,7 +45,7 @@ var c19Wrong = []byte("battery staple")
 
 type c19Cfg struct {
 	name   string
-	stored string // "1" declared key, "2" another key of the same type, "x" an ECDSA key
+	stored string // "1" declared key, "2" another key of the same type, "o" a key of the other supported type, "x" an ECDSA key
 	arity  int
 	typ    string
 	pub    ssh.PublicKey
@@ -192,6 +192,8 @@ func newC19Cfg(r *h.Rand, name string, rsaKey bool, stored string, legacy bool, 
 		storedPriv = keys[0].priv
 	case "2":
 		storedPriv = keys[1].priv
+	case "o":
+		storedPriv = other.priv // a key of the OTHER algorithm age supports (ed25519 declared, RSA stored, or the reverse)
 	default:
 		ek, err := ecdsa.GenerateKey(elliptic.P256(), rand.Reader)
 		if err != nil {
@@ -440,7 +442,11 @@ func (c *c19Cfg) historyCase(kind string, hist []c19Call) *h.Case {
 		orc = append(orc, fmt.Sprintf("a decrypted key is remembered = %v, but a validated unlock happened = %v (history %s -> %s)",
 			cached, unlocked, strings.Join(calls, ";"), strings.Join(outs, ";")))
 	}
-	cs.Line = fmt.Sprintf("sshenc %s %d %s", c.stored, c.arity, strings.Join(calls, ";"))
+	modelStored := c.stored
+	if modelStored == "o" {
+		modelStored = "2" // to the model it is "a key other than the declared one"
+	}
+	cs.Line = fmt.Sprintf("sshenc %s %d %s", modelStored, c.arity, strings.Join(calls, ";"))
 	cs.Impl = strings.Join(outs, ";") + " cached=" + h.B2s(cached)
 	if strings.Contains(cs.Impl, ":other:") {
 		// an error message this harness does not know: compare outcome classes only (ok / incorrect identity / error)
@@ -477,6 +483,9 @@ func runC19(cx *ctx) {
 		{newC19Cfg(r, "ed25519/ecdsa-file", false, "x", false, ed, rs[2]), 2, cx.n(0, 200), cx.n(10, 100)},
 		{newC19Cfg(r, "rsa/own", true, "1", false, rs, ed[2]), cx.n(2, 3), cx.n(40, 1000), cx.n(20, 400)},
 		{newC19Cfg(r, "rsa/other", true, "2", false, rs, ed[2]), cx.n(2, 3), cx.n(40, 1000), cx.n(20, 400)},
+		// the key file holds a key of the other supported algorithm: the declared public key cannot match it
+		{newC19Cfg(r, "ed25519/other-type", false, "o", false, ed, rs[2]), cx.n(2, 3), cx.n(40, 600), cx.n(20, 300)},
+		{newC19Cfg(r, "rsa/other-type", true, "o", false, rs, ed[2]), cx.n(2, 3), cx.n(40, 600), cx.n(20, 300)},
 		{newC19Cfg(r, "rsa-legacy-pem/own", true, "1", true, rs, ed[2]), cx.n(3, 5), cx.n(300, 0), cx.n(200, 3000)},
 		{newC19Cfg(r, "rsa-legacy-pem/other", true, "2", true, rs, ed[2]), cx.n(3, 5), cx.n(300, 0), cx.n(200, 3000)},
 	}
@@ -493,6 +502,14 @@ func runC19(cx *ctx) {
 			{second},                        // to the other key of the same type (the stored one in */other)
 			{"s:3:" + ar + ":3"},            // to an unrelated key of the same type
 			{"o:9:1:0"},                     // another recipient type only
+		}
+		if c.stored == "o" {
+			// a file addressed to the key the file actually holds (the other SSH type)
+			for k := range c.pieces {
+				if strings.HasPrefix(k, "o:8:") {
+					files = append(files, []string{k})
+				}
+			}
 		}
 		var alphabet []c19Call
 		for _, f := range files {
